@@ -12,6 +12,7 @@ timeout 3000 make -j16 > ../out_build.log 2>&1 || { tail -50 ../out_build.log; e
 cd ..
 mkdir -p out evidence
 mv out_build.log out/build.log
+python3 harness/depcheck.py || exit 1
 # independent re-check of the compiled theorem files (and everything they depend on) with coqchk.
 # The four modules whose proofs go through Interval (C03, C09, C11, C20 via Proof/PoissonP.v) are re-checked with the
 # *installed* Interval and Coquelicot libraries admitted (coqchk -admit: loaded, not re-checked): re-checking those libraries'
